@@ -9,6 +9,9 @@ Bind : for every enumerated tree, on the real cassandra.cqltypes:
        as the protocol says; cqltype_to_python(s) has the structure PyForm(t) and python_to_cqltype of it is s up to
        whitespace, for s = CqlName(t) (incl. strings with two and three quoted identifiers);
        strip_frozen(s) = CqlName(StripFrozen(t)).
+       Value codec on every native protocol version 1-4: the parsed type encodes / decodes a witness value like the
+       type without its frozen / reversed wrappers (ValueType / plain of the spec), flat collections also against the
+       2-byte-count format of protocol v1 / v2 itself.
        Parse histories (HTrees / Histories of the spec): descriptors in which a user type's name equals a plain-name
        token (its own keyspace, the other types' keyspace, a marshal class), each alone and after each other one,
        in registries of a process that parsed nothing else: the result must be the one the descriptor alone denotes.
@@ -48,8 +51,8 @@ META = {
     "design_ref": "5.6 C28",
 }
 
-INVARIANTS = ["Balanced", "NoFrozenLeft", "StripIdem", "StripExact", "DepthBound", "ReversedOutermostOnly", "HistoryIndependent"]
-WITNESSES = ["Witness_FrozenInside", "Witness_ReversedVector", "Witness_NotCassOk", "Witness_StripChanges", "Witness_ThreeQuoted", "Witness_NameIsLaterKeyspace"]
+INVARIANTS = ["Balanced", "NoFrozenLeft", "StripIdem", "StripExact", "DepthBound", "ReversedOutermostOnly", "HistoryIndependent", "WrappersTransparent"]
+WITNESSES = ["Witness_FrozenInside", "Witness_ReversedVector", "Witness_NotCassOk", "Witness_StripChanges", "Witness_ThreeQuoted", "Witness_NameIsLaterKeyspace", "Witness_TopLevelFrozenCollection"]
 
 
 class _Phases:
@@ -76,11 +79,11 @@ def evaluate(st):
     prev = st.get("prev") or ()
     if prev or tn.uses_history_names(t):
         # a case of the parse histories: its own registries, Cassandra notation only
-        return 1, [("cass-after-history", sig, msg) for sig, msg in tn.eval_history(prev, t, st["cass"], st["cql"])]
+        return 1, [("cass-after-history", sig, msg) for sig, msg in tn.eval_history(prev, t, st["cass"], st["cql"], st.get("plain"))]
     if st["cassok"]:
         for full in (True, False):
             n += 1
-            fails += [("cass" if full else "cass-short", sig, msg) for sig, msg in tn.eval_cass(t, st["cass"], st["cql"], full)]
+            fails += [("cass" if full else "cass-short", sig, msg) for sig, msg in tn.eval_cass(t, st["cass"], st["cql"], full, st.get("plain"))]
     if t["k"] != "reversed":
         n += 1
         fails += [("cql", sig, msg) for sig, msg in tn.eval_cql(st["cql"], st["stripped"], st.get("py"))]
@@ -182,6 +185,8 @@ def run(ctx):
                                 lambda s: dict(s, stripped=s["cql"])),
         "parse_structure_changed": (state_of({"k": "map", "a": [INT, TEXT], "nm": "", "d": 0}),
                                     lambda s: dict(s, py=("map", ("int", ("text",)))),),
+        "value_codec_of_another_type": (state_of({"k": "frozen", "a": [{"k": "list", "a": [INT], "nm": "", "d": 0}], "nm": "", "d": 0}),
+                                        lambda s: dict(s, plain=("ListType", "(", "UTF8Type", ")")),),
         "list_for_set": (state_of({"k": "list", "a": [INT], "nm": "", "d": 0}),
                          lambda s: dict(s, t=FrozenDict(k="set", a=s["t"]["a"], nm="", d=0))),
     }
@@ -212,8 +217,8 @@ def report(ctx, failures):
         cases = sorted(by_sig[sig], key=lambda c: (len(c[2]["cass"]) + len(c[2]["cql"]), c[0] == "cass-short", c[1]))
         d, msg, st = cases[0]
         ctx.violation("%s  [%d cases with this signature]" % (msg, len(cases)),
-                      replay={"state": {k: to_py(st[k]) for k in ("t", "cass", "cassok", "cql", "stripped", "py", "prev")},
-                              "more": [{k: to_py(c[2][k]) for k in ("t", "cass", "cassok", "cql", "stripped", "py", "prev")} for c in cases[1:10]]},
+                      replay={"state": {k: to_py(st[k]) for k in ("t", "cass", "cassok", "cql", "stripped", "py", "plain", "prev")},
+                              "more": [{k: to_py(c[2][k]) for k in ("t", "cass", "cassok", "cql", "stripped", "py", "plain", "prev")} for c in cases[1:10]]},
                       signature=sig)
 
 
@@ -225,6 +230,8 @@ def replay(ctx, r):
         if "py" not in st:
             st["py"] = None
         st["prev"] = tuple(tuple(p) for p in st.get("prev") or ())
+        if st.get("plain") is not None:
+            st["plain"] = tuple(st["plain"])
         n, fails = evaluate(st)
         print("%s | %s" % (tn.cass_string(st["cass"]) if st["cassok"] else "-", tn.cql_string(st["cql"])))
         for d, sig, msg in fails:
